@@ -290,4 +290,74 @@ def ElfDesc.wf (env : Env) (d : ElfDesc) : Bool :=
   -- (gABI: "If the file has no section name string table, this member holds the value SHN_UNDEF")
   (n != 0 || d.shstrndx == 0)
 
+/-! ### Well-formedness admitting compressed sections (gABI ch. 4, "Section compression")
+
+  `wf` above excludes SHF_COMPRESSED sections altogether.  `wfZ` is `wf` with that one clause
+  relaxed: a section may carry SHF_COMPRESSED when its data begins with a complete compression
+  header for the file's class (`Elf32_Chdr`: 12 bytes, `Elf64_Chdr`: 24 bytes) — gABI: "the section
+  data begins with the compression header" — at an offset a reader can seek to.  Nothing is asked of
+  the header's contents or of the compressed stream here (their decoding is C02's / C11's subject);
+  a reader must merely be able to read the header when it constructs the section object.
+  Every `wf` description is `wfZ`. -/
+
+/-- `secOk` with the SHF_COMPRESSED clause relaxed -/
+def ElfDesc.secOkZ (env : Env) (d : ElfDesc) : Nat → Nat → Bool
+  | 0, _ => false
+  | fuel+1, i =>
+    match d.sections[i]?, d.decHdr env i with
+    | some s, some h =>
+      let w := d.cls / 8
+      let link := fieldNat h "sh_link"
+      let linkIs (types : List String) : Bool :=
+        match d.decHdr env link with
+        | some lh => typeIn lh types && d.secOkZ env fuel link
+        | none => false
+      let entsize := fieldNat h "sh_entsize"
+      let size := fieldNat h "sh_size"
+      let off := fieldNat h "sh_offset"
+      let body := bodyOf s
+      let word (k : Nat) : Nat := decNat d.le ((body.drop (4 * k)).take 4)
+      -- not flagged SHF_COMPRESSED, or the body begins with a full compression header
+      (fieldNat h "sh_flags" &&& 0x800 == 0 ||
+        (decide (off < 2 ^ 63) && decide ((if d.cls = 32 then 12 else 24) ≤ body.length))) &&
+      (if typeIn h ["SHT_SYMTAB", "SHT_DYNSYM", "SHT_SUNW_LDYNSYM"] then
+         linkIs ["SHT_STRTAB"] && decide (0 < entsize) && size % entsize == 0
+       else if typeIn h ["SHT_SUNW_syminfo", "SHT_GNU_versym"] then linkIs ["SHT_SYMTAB", "SHT_DYNSYM"]
+       else if typeIn h ["SHT_GNU_verneed", "SHT_GNU_verdef"] then linkIs ["SHT_STRTAB"]
+       else if typeIn h ["SHT_REL"] then entsize == 2 * w
+       else if typeIn h ["SHT_RELA"] then entsize == 3 * w
+       else if typeIn h ["SHT_RELR"] then entsize == w
+       else if typeIn h ["SHT_DYNAMIC"] then linkIs ["SHT_STRTAB", "SHT_NOBITS"]
+       else if typeIn h ["SHT_ARM_ATTRIBUTES", "SHT_RISCV_ATTRIBUTES"] then
+         decide (off < 2 ^ 63) && body.head? == some 0x41
+       else if typeIn h ["SHT_HASH"] then
+         linkIs ["SHT_SYMTAB", "SHT_DYNSYM"] && decide (off < 2 ^ 63) &&
+         decide (8 ≤ body.length) && decide (8 + 4 * (word 0 + word 1) ≤ body.length)
+       else if typeIn h ["SHT_GNU_HASH"] then
+         linkIs ["SHT_SYMTAB", "SHT_DYNSYM"] && decide (off < 2 ^ 63) &&
+         decide (16 ≤ body.length) && decide (16 + w * word 2 + 4 * word 0 ≤ body.length)
+       else true)
+    | _, _ => false
+
+/-- `wf` with `secOkZ` in place of `secOk`: compressed sections admitted -/
+def ElfDesc.wfZ (env : Env) (d : ElfDesc) : Bool :=
+  let n := d.sections.length
+  let m := d.segments.length
+  (d.cls == 32 || d.cls == 64) &&
+  machineClasses.contains d.mclass && d.cfgOk env &&
+  (match d.regions with
+   | some rs => regionsDisjoint (sortRegions rs)
+   | none => false) &&
+  d.escapesOk && d.namesOk &&
+  (n == 0 || decide ((d.S.Elf_Shdr.sizeof.getD 0) ≤ d.shentsize)) &&
+  (m == 0 || decide ((d.S.Elf_Phdr.sizeof.getD 0) ≤ d.phentsize)) &&
+  decide (d.shoff + n * d.shentsize < 2 ^ 63) && decide (d.phoff + m * d.phentsize < 2 ^ 63) &&
+  decide (n < 2 ^ 32) && decide (m < 2 ^ 32) &&
+  (n == 0 || (decide (0 < d.shoff) && decide (d.shstrndx < n))) && (m == 0 || decide (0 < d.phoff)) &&
+  (match d.sections[d.shstrndx]? with
+   | some st => d.sections.all fun s => decide (getNatD st.hdr "sh_offset" + s.nameOff < 2 ^ 63)
+   | none => true) &&
+  (List.range n).all (fun i => d.secOkZ env 4 i) &&
+  (n != 0 || d.shstrndx == 0)
+
 end PyElf.Spec
